@@ -78,6 +78,9 @@ def space_pairs(mesh, quick):
         out += [("DP0seg-last/DP0seg-first", {"kind": "DP0", "sel": last}, {"kind": "DP0", "sel": first}),
                 ("P1seg-last/P1", {"kind": "P1", "sel": last, "inc": True}, {"kind": "P1", "inc": True}),
                 ("DP1seg-first/P1seg-last", {"kind": "DP1", "sel": first}, {"kind": "P1", "sel": last, "inc": True, "trunc": False})]
+        # normals flipped on a proper subset of the domains (normal multipliers not constant), whole grid and segment
+        out += [("P1sw/P1sw", {"kind": "P1", "inc": True, "swapped": (d[-1],)}, {"kind": "P1", "inc": True, "swapped": (d[0],)}),
+                ("DP0seg-last-sw/P1sw", {"kind": "DP0", "sel": last, "swapped": (d[-1],)}, {"kind": "P1", "inc": True, "swapped": (d[-1],)})]
     if not quick:
         out += [("DUAL0/DUAL0", {"kind": "DUAL0", "inc": True, "trunc": False}, {"kind": "DUAL0", "inc": True, "trunc": False}),
                 ("DUAL1/DP0", {"kind": "DUAL1"}, {"kind": "DP0"})]
@@ -165,18 +168,20 @@ def run(ctx):
                         continue
                     for label, dspec, tspec in space_pairs(mesh, quick):
                         for name in ("single_layer", "double_layer", "adjoint_double_layer"):
-                            if quick and name != "single_layer" and label not in ("P1/P1", "P1seg-last/P1", "DP0seg-last/DP0seg-first"):
+                            if quick and name != "single_layer" and label not in ("P1/P1", "P1seg-last/P1", "DP0seg-last/DP0seg-first", "P1sw/P1sw", "DP0seg-last-sw/P1sw"):
                                 continue
                             check_boundary(ctx, meshname, grid, grid, family, name, k, label, dspec, tspec, order, near)
                     hyp = [("P1/P1", {"kind": "P1", "inc": True}, {"kind": "P1", "inc": True})]
                     if len(doms) > 1:
                         hyp.append(("P1seg-last/P1", {"kind": "P1", "sel": ("segments", (doms[-1],)), "inc": True}, {"kind": "P1", "inc": True}))
+                        hyp.append(("P1sw/P1sw", {"kind": "P1", "inc": True, "swapped": (doms[-1],)}, {"kind": "P1", "inc": True, "swapped": (doms[0],)}))
                     for label, dspec, tspec in hyp:
                         check_boundary(ctx, meshname, grid, grid, family, "hypersingular", k, label, dspec, tspec, order, near)
                 for k in MAXWELL_KS[: 1 if quick else 2]:
                     mx = [("RWG/SNC", {"kind": "RWG", "inc": True}, {"kind": "SNC", "inc": True})]
                     if len(doms) > 1:
                         mx.append(("RWGseg-last/SNC", {"kind": "RWG", "sel": ("segments", (doms[-1],)), "inc": True}, {"kind": "SNC", "inc": True}))
+                        mx.append(("RWGsw/SNCsw", {"kind": "RWG", "inc": True, "swapped": (doms[-1],)}, {"kind": "SNC", "inc": True, "swapped": (doms[-1],)}))
                     if not quick and meshname in ("tet", "cube12"):
                         mx.append(("BC/RBC", {"kind": "BC"}, {"kind": "RBC"}))
                     for label, dspec, tspec in mx:
@@ -185,7 +190,8 @@ def run(ctx):
             # potentials
             for family, k in SCALAR_FAMS:
                 for sspec in [{"kind": "P1", "inc": True}, {"kind": "DP0"}] + ([{"kind": "P1", "sel": ("segments", (doms[-1],)), "inc": True},
-                                                                               {"kind": "DP0", "sel": ("segments", (doms[-1],))}] if len(doms) > 1 else []):
+                                                                               {"kind": "DP0", "sel": ("segments", (doms[-1],))},
+                                                                               {"kind": "P1", "inc": True, "swapped": (doms[-1],)}] if len(doms) > 1 else []):
                     for name in ("single_layer", "double_layer"):
                         check_potential(ctx, meshname, grid, family, name, k, sspec, order)
             for k in MAXWELL_KS[: 1 if quick else 2]:
